@@ -45,6 +45,18 @@ type namedKey string
 // a named string type as a value
 type namedString string
 
+// NamedString returns s as a value of a named string type.
+func NamedString(s string) any { return namedString(s) }
+
+// NamedKeyMap returns a map whose key type is a named string type.
+func NamedKeyMap(m map[string]any) any {
+	out := map[namedKey]any{}
+	for k, v := range m {
+		out[namedKey(k)] = v
+	}
+	return out
+}
+
 type ptrStruct struct {
 	A int
 	P *int
